@@ -31,12 +31,18 @@ const (
 	codeWarmUp = 50
 )
 
-// relayer versions by index; 0 is not a semantic version at all
-var versions = []string{"1.12.0", "v1.11.3", "v1.12.0", "v2.0.0"}
+// relayer versions by index, in semantic-version order; 0 is not a semantic version at all. The list in use is chosen per
+// history (InitK argument vset): set 1 has a pre-release, which orders just BELOW its release (semver 11.4).
+var versionSets = [][]string{
+	{"1.12.0", "v1.11.3", "v1.12.0", "v2.0.0"},
+	{"1.12.0", "v1.11.3", "v1.12.0-rc.1", "v1.12.0"},
+}
+var versions = versionSets[0]
 
 type aliveArgs struct {
 	Stakes []int64 `json:"stakes"`
 	Aset   *int    `json:"aset"`
+	Vset   int     `json:"vset"`
 	N      int     `json:"n"`
 	Dt     int64   `json:"dt"`
 	V      int     `json:"v"`
@@ -278,6 +284,7 @@ func TestDriveAlive(t *testing.T) {
 		if ia.Aset != nil {
 			aset = *ia.Aset
 		}
+		versions = versionSets[ia.Vset%len(versionSets)]
 		w := getAliveWorld(ia.Stakes, aset)
 		cctx, _ := w.e.Ctx.CacheContext()
 		r := &aliveRun{w: w, ctx: cctx, h: 1, now: 0}
@@ -294,7 +301,7 @@ func TestDriveAlive(t *testing.T) {
 			em.Emit(ev)
 			idx++
 		}
-		emit("InitK", map[string]any{"stakes": ia.Stakes, "aset": aset}, "init", nil, map[string]any{
+		emit("InitK", map[string]any{"stakes": ia.Stakes, "aset": aset, "vset": ia.Vset % len(versionSets)}, "init", nil, map[string]any{
 			"ttl": codeTTL, "grace": codeGrace, "sweep": codeSweep, "warmup": codeWarmUp, "maxvals": aliveMaxVals, "unbond": int(aliveUnbond / time.Second),
 			"addrs": w.addrs, "versions": versions, "mixed": w.mixed})
 		for _, s := range h.Steps[1:] {
